@@ -308,3 +308,44 @@ Definition index_text_ok (ps : list (list rfield)) : bool :=
   forallb (fun p => negb (match p with [] => true | _ => false end) && forallb rfield_ok p) ps.
 
 End IndexText.
+
+(** * Part 4: the mirror of a history
+
+    What a repository that publishes [v0], [steps] puts on line: the Index file
+    (one paragraph: -Current, -History, -Patches; single blanks between columns),
+    each patch under its name, the full current file. *)
+Section Mirror.
+Variable is_space : N -> bool.
+Variable prefix : str.
+Variable Hk : list str -> str.
+Variable cur_size : str.                (* the size column of -Current *)
+
+Definition mirror_index (v0 : list str) (steps : list pstep) : list (list rfield) :=
+  [[mkrf (fname prefix "-Current")
+         (Hk (current (versions v0 steps)) ++ [32%N] ++ cur_size) [];
+    mkrf (fname prefix "-History") [] (hist_rows Hk [32%N] v0 steps);
+    mkrf (fname prefix "-Patches") [] (patch_rows Hk [32%N] steps)]].
+
+Definition mirror_px (v0 : list str) (steps : list pstep) : pubindex :=
+  mkpidx (concat (map (map rf_field) (mirror_index v0 steps))) [32%N] cur_size
+         ([] :: hist_rows Hk [32%N] v0 steps) ([] :: patch_rows Hk [32%N] steps).
+
+(** GET <remote>.diff/<name>.gz *)
+Definition mirror_patch (steps : list pstep) (name : str) : option (list str) :=
+  match List.find (fun s => str_eqb (ps_name s) name) steps with
+  | Some s => Some (ps_script s)
+  | None => None
+  end.
+
+(** The history can be published: alignments chain up, patch names are distinct
+    tokens, sizes and digests are tokens. *)
+Definition history_ok (v0 : list str) (steps : list pstep) : bool :=
+  chain_ok v0 steps
+  && distinct (map ps_name steps)
+  && forallb (fun s => token_ok is_space (ps_name s) && token_ok is_space (ps_hsize s)
+                       && token_ok is_space (ps_psize s)
+                       && token_ok is_space (Hk (ps_script s))) steps
+  && forallb (fun v => token_ok is_space (Hk v)) (versions v0 steps)
+  && token_ok is_space cur_size.
+
+End Mirror.
